@@ -100,6 +100,7 @@ pub fn c02_s1_observe_vs_collect() {
     vcover!(full && !before(t1_e, 1, s.rb, 2), "c02.s1: collector included an overlapping observation");
     vcover!(fails > 0, "c02.s1: collector had to wait for the in-flight observation");
     std::mem::forget(h);
+    vcover!(true, "end of harness reached");
 }
 
 /// S2: T1 observe(a); observe(b) ‖ T2 collect: never the later observation without the earlier.
@@ -126,6 +127,7 @@ pub fn c02_s2_two_observes_prefix_closed() {
     if before(s.re, 2, t1b_b, 1) { assert!(none || first, "C02 snapshot excludes every observation started after the collection returned"); }
     vcover!(first && a != b && a != 0.0 && b != 0.0, "c02.s2: snapshot between the two observations");
     std::mem::forget(h);
+    vcover!(true, "end of harness reached");
 }
 
 /// S3: T1 observe(a) ‖ T2 observe(b) ‖ T3 collect. 2 buckets.
@@ -153,6 +155,7 @@ pub fn c02_s3_two_observers_vs_collect() {
     }
     vcover!(describes(&s, &v, &[false, true], 1.0, 2.0) && a != b && a != 0.0, "c02.s3: only the second observer's value in the snapshot");
     std::mem::forget(h);
+    vcover!(true, "end of harness reached");
 }
 
 /// S4: T1 observe(a) ‖ T2 collect ‖ T3 collect: collectors exclude each other, later snapshot
@@ -184,6 +187,7 @@ pub fn c02_s4_two_collectors() {
     vcover!(f1 && e2 && a != 0.0, "c02.s4: third thread's collect ran before the second thread's");
     std::mem::forget(fin);
     std::mem::forget(h);
+    vcover!(true, "end of harness reached");
 }
 
 /// S5: one observation completed beforehand, then T1 collect ‖ T2 collect: collectors exclude
@@ -209,6 +213,7 @@ pub fn c02_s5_two_collectors_after_observation() {
     vcover!(before(s2.re, 2, s1.rb, 1) || s2.re <= s1.rb, "c02.s5: second thread's collect ran first");
     vcover!(waited == 0, "c02.s5: no collector had to wait");
     std::mem::forget(h);
+    vcover!(true, "end of harness reached");
 }
 
 /// diagnostic twin of S5: reachability witnesses after every stage
@@ -237,6 +242,7 @@ pub fn c02_s5_diag() {
     vcover!(f2, "diag: f2");
     vcover!(h.get_sample_count() == 1, "diag: total count 1");
     std::mem::forget(h);
+    vcover!(true, "end of harness reached");
 }
 
 /// diagnostic: two collects, no observation at all
@@ -252,6 +258,7 @@ pub fn c02_diag_a() {
     let s2 = collect(&h);
     vcover!(s2.cnt == 0, "diag a: after collect 2");
     std::mem::forget(h);
+    vcover!(true, "end of harness reached");
 }
 /// diagnostic: plain (MODE 0) sequential observe, proto, proto without the thread protocol
 #[cfg_attr(kani, kani::proof, kani::unwind(6))]
@@ -264,6 +271,7 @@ pub fn c02_diag_b() {
     vcover!(p2.get_sample_count() == 1, "diag b: after proto 2");
     std::mem::forget((p1, p2));
     std::mem::forget(h);
+    vcover!(true, "end of harness reached");
 }
 /// diagnostic: register + two collects in ONE thread after an observation
 #[cfg_attr(kani, kani::proof, kani::unwind(6))]
@@ -278,6 +286,7 @@ pub fn c02_diag_c() {
     let s2 = collect(&h);
     vcover!(s2.cnt == 1, "diag c: after collect 2");
     std::mem::forget(h);
+    vcover!(true, "end of harness reached");
 }
 
 /// diagnostic: like diag_a but both collects in thread 1
@@ -292,6 +301,7 @@ pub fn c02_diag_d() {
     let s2 = collect(&h);
     vcover!(s2.cnt == 0, "diag d: after collect 2");
     std::mem::forget(h);
+    vcover!(true, "end of harness reached");
 }
 /// diagnostic: like diag_a with finer witnesses in thread 2
 #[cfg_attr(kani, kani::proof, kani::unwind(6))]
@@ -315,6 +325,7 @@ pub fn c02_diag_e() {
     vcover!(r.is_err(), "diag e: thread 2 CAS failed");
     let _ = s1;
     std::mem::forget(h);
+    vcover!(true, "end of harness reached");
 }
 
 /// diagnostic: thread 2 executes proto's body step by step
@@ -361,6 +372,7 @@ pub fn c02_diag_f() {
     let _ = s1;
     std::mem::forget(hp);
     std::mem::forget(h);
+    vcover!(true, "end of harness reached");
 }
 
 /// C03: T1 observe(a) ‖ T2 local batch {b, c} flush ‖ T3 three collects; then quiescent checks.
@@ -395,6 +407,7 @@ pub fn c03_batch_flush_three_collects() {
     std::mem::forget(fin);
     std::mem::forget(l);
     std::mem::forget(h);
+    vcover!(true, "end of harness reached");
 }
 
 pub fn dispatch(name: &str) -> Option<fn()> {
